@@ -433,6 +433,12 @@ func init() {
 		if x.Axis == 'x' {
 			return c.Eq(it.secpX(x.E), it.secpX(y.E))
 		}
+		// the X coordinates are already known to be equal on this path: equal Y then means the same point, i.e.
+		// the same discrete log (injectivity axiom of noteLog) -- an exact scalar question instead of a
+		// "generic" coordinate equation whose infeasible side would be explored blindly
+		if sx := c.Eq(it.secpX(x.E), it.secpX(y.E)); it.P.pcSet[sx.ID] {
+			return it.scEq(x.E, y.E)
+		}
 		return c.Eq(it.secpY(x.E), it.secpY(y.E))
 	})
 	R("("+secpPkg+".FieldVal).String", func(it *Interp, _ *ssa.Function, a []Value) Value {
